@@ -211,7 +211,10 @@ Definition prep_inserts_at_index (w : wl) (index count : Z) : res wl :=
       if count_range w1 b e <=? 0 then Err 1 else
       r <- find_sparse_enough_range w1 b e ;;
       w2 <- adjust_range w1 (fst r) (snd r) ;;
-      if is_valid_range b (sl_irange (inss w2) b e) e then Ok w2 else Err 2.
+      (* the neighbours may have been adjusted too: compare with their current keys *)
+      let b2 := if 0 <? index then adj_get_key w2 (index - 1) else b in
+      let e2 := if index <? lenZ orig then adj_get_key w2 index else e in
+      if is_valid_range b2 (sl_irange (inss w2) b2 e2) e2 then Ok w2 else Err 2.
 
 End WithOrig.
 
